@@ -2,6 +2,7 @@ import FitModel.Typed
 import FitModel.TypedFactory
 import FitModel.Generated.Mesgdef
 import FitProps.TypedLemmas
+import FitProps.TypedNormalLemmas
 /-!
 # C13 — Typed message structs round-trip with protocol messages for every message type
 
@@ -18,11 +19,13 @@ Formalisation choices (fixed here, see also `typedNormal` / `inRange` in the mod
   `FieldBase` is the factory's; the value of the **last** occurrence counts (Reset stores by number); a value of
   another type than the field's, or the base type's invalid value, is "read as invalid" and the field is absent;
   an array field is kept whatever its elements (only a nil slice is invalid), a string unless empty;
-* expanded marks are kept for the numbers the generated code declares eligible (targets of components); a mark on
-  another number has no meaning in the profile and is not kept; a marked field is dropped by ToMesg unless
-  IncludeExpandedFields — that is what the option is for;
-* a field that carries a name but whose number the message does not have (number below the guard) is not an
-  "unknown field" for the generated code and is dropped ("read as invalid");
+* expanded marks and fields the struct has no slot for: `typedNormal` is what the generated code does (marks kept for the
+  numbers it declares eligible = component targets; a named field whose number the message lacks, below the bound, is
+  dropped). The PROPERTY says "keeps the expanded-field marks" and "the same unknown fields / kept as unknown fields"
+  without qualification: `typedNormalFull` is the normal form it demands, `C13_mesg_struct_mesg_partial` proves the code
+  meets it outside two classes, `C13_KF_witnesses` / `C13_full_is_false` show it does not inside them (open findings
+  KF-C13-1, KF-C13-2; neither class can come out of the decoder with the standard factory). A marked field is dropped by
+  ToMesg unless IncludeExpandedFields — that is what the option is for;
 * struct → message → struct: `inRange` — slots hold valid contents or *the* invalid content of their kind
   (e.g. `typedef.Bool` 0, 1 or 255; a time is `time.Time{}` or a whole second in `[epoch, epoch + 2^32 − 2]`),
   marks only on eligible slots that are emitted, UnknownFields hold fields that are unknown to the message.
@@ -170,6 +173,137 @@ def exStruct : Struct :=
   | .panic => default
 
 example : inRange Mesgdef.tRecord exStruct = true ∧ exStruct.state ≠ 0 ∧ exStruct.unknown ≠ [] := by
+  decide +kernel
+
+/-! ### second wave: fixed points, fixed-length arrays, and what the property demands where the code does less -/
+
+/-- **Normal forms are fixed points.** `typedNormal` is idempotent: for every well-formed table, every factory that
+knows the message, both option settings and every message, normalising a normal form changes nothing… -/
+theorem C13_normal_idempotent (T : MesgTable) (hw : T.wf = true) (fac : Nat → Field) (hf : facOk T fac = true)
+    (o : Options) (m : Message) : typedNormal T fac o (typedNormal T fac o m) = typedNormal T fac o m :=
+  typedNormal_idem T hw fac hf o m
+
+/-- …so a message that came out of `ToMesg` goes through `NewXxx(&m).ToMesg(options)` unchanged (no panic, same
+message): message → struct → message is a projection onto its normal forms. -/
+theorem C13_normal_is_fixed_point (T : MesgTable) (hw : T.wf = true) (fac : Nat → Field) (hf : facOk T fac = true)
+    (o : Options) (m : Message) (hb : ∀ f ∈ m.fields, f.base ≠ none) :
+    ∃ st, ofMesg T (typedNormal T fac o m) = .ok st ∧ toMesg T fac o st = typedNormal T fac o m := by
+  have hbase : ∀ f ∈ (typedNormal T fac o m).fields, f.base ≠ none := by
+    intro f hfm
+    rw [typedNormal_fields, List.mem_append] at hfm
+    rcases hfm with h | h
+    · obtain ⟨s, hs, hfs⟩ := List.mem_filterMap.mp h
+      have hst := (normField_slotFields T hw fac hf o m.fields s hs f hfs).1
+      intro e; simp [stored, e] at hst
+    · exact hb f (List.mem_filter.mp h).1
+  cases h : ofMesg T (typedNormal T fac o m) with
+  | panic => exact absurd h (ofMesg_no_panic T hw _ hbase)
+  | ok st => exact ⟨st, rfl, by rw [toMesg_ofMesg T hw fac o _ st h, typedNormal_idem T hw fac hf o m]⟩
+
+/-- **Fixed-length arrays: the specification's "valid" against the protocol's.** For a slot `[n]T` and a value of the
+slot's type: a numeric array is kept exactly when `proto.Value.Valid(baseType)` holds of the part of the value that fits
+the array (`fitPart n v` — the first `n` elements; it is `v` itself when `v` has at most `n` elements: that is the exact
+side condition for "kept ⇔ `v.Valid()`"); a string array is kept exactly when one of its first `n` strings is not
+empty, in particular whenever the fitting part is `Valid` (the converse fails only for `"\x00"`, as for scalar strings). -/
+theorem C13_spec_valid_fixed_arrays (s : Slot) (n : Nat) (hk : s.kind = .fixed n) (hw : s.wf = true) :
+    (∀ v, typeOf v = s.ptype → s.ptype ≠ typeSliceString → (specVal s v).isSome = valid (fitPart n v) s.baseType) ∧
+    (∀ v, typeOf v = s.ptype → s.ptype ≠ typeSliceString → (elems v).length ≤ n → (specVal s v).isSome = valid v s.baseType) ∧
+    (∀ vs, s.ptype = typeSliceString → (specVal s (.sliceString vs)).isSome = (vs.take n).any (· != []) ∧
+      (valid (fitPart n (.sliceString vs)) s.baseType = true → (specVal s (.sliceString vs)).isSome = true)) := by
+  refine ⟨fun v ht hns => specVal_fixed_num_eq_valid s n hk hw v ht hns, ?_, fun vs hs => specVal_fixed_str s n hk hs vs⟩
+  intro v ht hns hlen
+  rw [specVal_fixed_num_eq_valid s n hk hw v ht hns]
+  have : fitPart n v = v := by
+    have hnotstr : ∀ vs, v ≠ .sliceString vs := by
+      intro vs e; subst e; exact hns (by simpa [typeOf] using ht.symm)
+    have : fitPart n v = withElems v ((elems v).take n) := by
+      cases v <;> first | rfl | exact absurd rfl (hnotstr _)
+    rw [this, List.take_of_length_le hlen]
+    cases v <;> rfl
+  rw [this]
+
+/-- **What the property demands** (`typedNormalFull`: every field the struct has no slot for is kept with the unknown
+fields; the expanded mark of every known field is kept) — the full statement of message → struct → message. It is FALSE
+of the generated code: `C13_KF_witnesses`, known findings KF-C13-1 and KF-C13-2. -/
+def C13_mesg_struct_mesg_full : Prop :=
+  ∀ (T : MesgTable), T.wf = true → ∀ (fac : Nat → Field) (o : Options) (m : Message) (st : Struct),
+    ofMesg T m = .ok st → toMesg T fac o st = typedNormalFull T fac o m
+
+/-- **Message → struct → message, against the property's own normal form (partial).** Outside the two classes — no
+field with a name and a number below the struct's bound that the message type does not define (`hasForeign`, KF-C13-1),
+no expanded mark on a known field that is not a component target (`hasStrayMark`, KF-C13-2) — the code returns exactly
+what the property demands. Both hypotheses hold of every message the decoder produces with the standard factory
+(named ⇔ defined by the profile; marks only on component targets: `C17_mesgdef_matches_xlsx`). -/
+theorem C13_mesg_struct_mesg_partial (T : MesgTable) (hw : T.wf = true) (fac : Nat → Field) (o : Options) (m : Message)
+    (st : Struct) (h : ofMesg T m = .ok st) (h1 : hasForeign T m = false) (h2 : hasStrayMark T m = false) :
+    toMesg T fac o st = typedNormalFull T fac o m := by
+  rw [typedNormalFull_eq T fac o m h1 h2]; exact toMesg_ofMesg T hw fac o m st h
+
+/-- a pinned literal table shaped like today's file_id struct (one slot — `type`, number 0 — bound `Num > 8`), so that
+the witnesses keep checking whatever happens to /repo -/
+def pinnedFileId : MesgTable :=
+  { name := 0, num := 0, guard := 9, panics := [], markBound := 0, hasDev := false
+    slots := [{ num := 0, readNum := 0, kind := .scalar, ptype := typeUint8, dflt := .uint8 255, sentinel := .uint8 255,
+                canExpand := false, baseType := btEnum }] }
+
+def pinnedFac (num : Nat) : Field :=
+  { base := some { num := num, baseType := btEnum, nameKnown := true }, value := .invalid }
+
+/-- KF-C13-1: file_id with `type` and a NAMED field 6 (a number file_id does not define, below the bound) -/
+def kf1Mesg : Message :=
+  { num := 0, devFields := []
+    fields := [{ base := some { num := 0, baseType := btEnum, nameKnown := true }, value := .uint8 4 },
+               { base := some { num := 6, baseType := btUint8, nameKnown := true }, value := .uint8 70 }] }
+
+/-- KF-C13-2: file_id whose `type` field (not a component target) is flagged as an expanded field -/
+def kf2Mesg : Message :=
+  { num := 0, devFields := []
+    fields := [{ base := some { num := 0, baseType := btEnum, nameKnown := true }, value := .uint8 4, isExpanded := true }] }
+
+def roundTrip (T : MesgTable) (fac : Nat → Field) (o : Options) (m : Message) : Option Message :=
+  match ofMesg T m with
+  | .ok st => some (toMesg T fac o st)
+  | .panic => none
+
+/-- **The witnesses.** On a well-formed table shaped like file_id: (1) the named field 6 is gone after the round trip
+(the property's normal form keeps it, and the code itself keeps the same field when it is called "unknown");
+(2) the mark of `type` is recorded by the struct (`IsExpandedField(0)`… here the bitmap bound is 0, on record it answers
+true) but the emitted field is unmarked, and it is emitted even when expanded fields are to be left out. -/
+theorem C13_KF_witnesses :
+    pinnedFileId.wf = true ∧
+    roundTrip pinnedFileId pinnedFac { includeExpanded := true } kf1Mesg ≠
+      some (typedNormalFull pinnedFileId pinnedFac { includeExpanded := true } kf1Mesg) ∧
+    (roundTrip pinnedFileId pinnedFac { includeExpanded := true } kf1Mesg).map (·.fields.length) = some 1 ∧
+    (typedNormalFull pinnedFileId pinnedFac { includeExpanded := true } kf1Mesg).fields.length = 2 ∧
+    roundTrip pinnedFileId pinnedFac { includeExpanded := true } { kf1Mesg with fields := kf1Mesg.fields.map fun f =>
+        { f with base := f.base.map fun b => { b with nameKnown := b.num != 6 } } } =
+      some { kf1Mesg with fields := kf1Mesg.fields.map fun f =>
+        { f with base := f.base.map fun b => { b with nameKnown := b.num != 6 } } } ∧
+    roundTrip pinnedFileId pinnedFac { includeExpanded := true } kf2Mesg ≠
+      some (typedNormalFull pinnedFileId pinnedFac { includeExpanded := true } kf2Mesg) ∧
+    roundTrip pinnedFileId pinnedFac { includeExpanded := false } kf2Mesg ≠
+      some (typedNormalFull pinnedFileId pinnedFac { includeExpanded := false } kf2Mesg) ∧
+    hasForeign pinnedFileId kf1Mesg = true ∧ hasStrayMark pinnedFileId kf2Mesg = true := by
+  decide
+
+/-- hence the full statement is false -/
+theorem C13_full_is_false : ¬ C13_mesg_struct_mesg_full := by
+  intro h
+  have hw : pinnedFileId.wf = true := by decide
+  cases hst : ofMesg pinnedFileId kf1Mesg with
+  | panic => revert hst; decide
+  | ok st =>
+    have := h pinnedFileId hw pinnedFac { includeExpanded := true } kf1Mesg st hst
+    have hne := C13_KF_witnesses.2.1
+    apply hne
+    simp only [roundTrip, hst, this]
+
+/-- non-vacuity of the hypotheses of `C13_mesg_struct_mesg_partial`: the example message of this file is in neither class -/
+example : hasForeign Mesgdef.tRecord exMesg = false ∧ hasStrayMark Mesgdef.tRecord exMesg = false := by
+  decide +kernel
+
+/-- non-vacuity of `C13_spec_valid_fixed_arrays`: record.compressed_speed_distance is a `[3]byte` slot of a regenerated table -/
+example : ∃ s ∈ Mesgdef.tRecord.slots, s.kind = .fixed 3 ∧ s.wf = true := by
   decide +kernel
 
 end Fit.C13
